@@ -1,14 +1,12 @@
 #!/bin/bash
 # confirm_seeded.sh <worktree> : confirms a sub-agent's change in its own scratch worktree:
 #  (a) patch+demo applied: pre-existing tests pass, demo tests fail; (b) demo only: everything passes.
+# (no git stash: the stash is shared between worktrees)
 set -u
 WT="$1"
 cd "$WT" || exit 2
-git stash -q --include-untracked 2>/dev/null
 git checkout -q -- . 2>/dev/null
-git stash pop -q 2>/dev/null
-# start from pristine + both diffs
-git checkout -q -- src 2>/dev/null
+git clean -fdq -e patch.diff -e demo.diff -e NOTES.md -e PROPERTY.txt -e target 2>/dev/null
 git apply patch.diff || { echo "patch.diff does not apply"; exit 2; }
 git apply demo.diff || { echo "demo.diff does not apply"; exit 2; }
 echo "== (a) patch + demo"
